@@ -56,7 +56,7 @@ def tasks(tier, seed):
     rng = random.Random(seed)
     rng.shuffle(shapes)
     for sh in shapes[: (10 if quick else 60)]:
-        for mode in ('plain', 'recomputed'):
+        for mode in ('plain', 'recomputed', 'recomputed-all-types'):
             T.append(('filter', sh[0], sh[1], mode))
     T.append(('filter_flagged', 3))
     T.append(('types', n_entries))
@@ -120,8 +120,10 @@ def filter_case(rep, types, gens, mode):
         stats = {k: i for i, k in enumerate(keys)}
         if mode == 'plain':
             res = filter_stats(stats, time=SymInt(qt), level=SymInt(ql), iter=None, type=TYPES[0])
-        else:
+        elif mode == 'recomputed':
             res = filter_stats(stats, type=TYPES[0], recomputed=False, level=SymInt(ql))
+        else:  # no restriction to one type: the highest restart generation is taken per (time, type)
+            res = filter_stats(stats, recomputed=False, level=SymInt(ql))
         return sorted(res.values())
 
     paths = explore(fn, max_paths=20000)
@@ -132,9 +134,13 @@ def filter_case(rep, types, gens, mode):
     for i in range(n):
         if mode == 'plain':
             surv.append(z3.And(tv[i] == qt, lv[i] == ql, z3.BoolVal(types[i] == 0)))
-        else:
+        elif mode == 'recomputed':
             match_i = z3.And(lv[i] == ql, z3.BoolVal(types[i] == 0))
             sup = [z3.And(lv[j] == ql, tv[j] == tv[i]) for j in range(n) if j != i and types[j] == 0 and gens[j] > gens[i]]
+            surv.append(z3.And(match_i, z3.Not(z3.Or(sup)) if sup else z3.BoolVal(True)))
+        else:
+            match_i = lv[i] == ql
+            sup = [z3.And(lv[j] == ql, tv[j] == tv[i]) for j in range(n) if j != i and types[j] == types[i] and gens[j] > gens[i]]
             surv.append(z3.And(match_i, z3.Not(z3.Or(sup)) if sup else z3.BoolVal(True)))
     for pi, p in enumerate(paths):
         got = set(p.result)
@@ -152,7 +158,7 @@ def filter_case(rep, types, gens, mode):
                 rep.unreproduced(f'{name}/path{pi}', vals)
     r = coverage_certificate(paths, pre, name=f'{name}:coverage')
     rep.ob(f'{name}:coverage', r)
-    if 0 in types:
+    if 0 in types or mode == 'recomputed-all-types':
         rep.vac(f'{name}:several-outcomes', 'sat' if len({tuple(p.result) for p in paths}) > 1 else 'unsat', 'sat')
     rep.sample({'case': name, 'paths': len(paths), 'entries': [(TYPES[t], g) for t, g in zip(types, gens)],
                 'free_variables': 'time, level, iter of every entry; query time / level'}, limit=5)
@@ -168,10 +174,14 @@ def filter_concrete(types, gens, mode, vals):
     if mode == 'plain':
         res = filter_stats(stats, time=vals['qt'], level=vals['ql'], iter=None, type=TYPES[0])
         exp = sorted(i for i in range(n) if vals[f't{i}'] == vals['qt'] and vals[f'l{i}'] == vals['ql'] and types[i] == 0)
-    else:
+    elif mode == 'recomputed':
         res = filter_stats(stats, type=TYPES[0], recomputed=False, level=vals['ql'])
         exp = sorted(i for i in range(n) if vals[f'l{i}'] == vals['ql'] and types[i] == 0 and not any(
             j != i and types[j] == 0 and gens[j] > gens[i] and vals[f'l{j}'] == vals['ql'] and vals[f't{j}'] == vals[f't{i}'] for j in range(n)))
+    else:
+        res = filter_stats(stats, recomputed=False, level=vals['ql'])
+        exp = sorted(i for i in range(n) if vals[f'l{i}'] == vals['ql'] and not any(
+            j != i and types[j] == types[i] and gens[j] > gens[i] and vals[f'l{j}'] == vals['ql'] and vals[f't{j}'] == vals[f't{i}'] for j in range(n)))
     return sorted(res.values()), exp
 
 
